@@ -868,6 +868,7 @@ func runC06(cfg Config) {
 	runPoolTraces(cfg, rep, []string{"ChopFile", "Copy", "ChunkStream"}, cfg.N(330, 6600), 6)
 	c06RealBackends(cfg, rep, rng, monitor)
 	runRemoteStoresWrite(cfg, rep, rng)
+	runGCSWrite(cfg, rep, rng)
 	c06CLI(cfg, rep, rng, monitor)
 	cmdflowCLI(cfg, rep, rng, "C06")
 	rep.Write(cfg.Out)
